@@ -1,6 +1,8 @@
 """C10 -- the front end is total: a scenario or a located syntax error, never a crash.
 
-Exploration by deviation bounding on mutations (gen/mutate.py): 0 mutations (every seed),
+Exploration by deviation bounding on mutations (gen/mutate.py): 0 mutations (every seed, every
+form quoted by the reference, every form derived from the Scenic rules of the grammar itself
+with each optional element absent / present),
 then every single token / line / truncation mutation of the selected seeds, then pairs.
 
 Oracle for one text: parse_string + compileScenicAST + translator.compileTranslatedTree either
@@ -495,6 +497,20 @@ def run(ctx):
                 {"mode": "docform", "kind": next(k for o, k, f, e in form_items if f == r["form"]), "form": r["form"], "exp": r["exp"], "origin": r["origin"]},
             )
     n_prec = check_documented_precedence(ctx)
+    # ---- forms derived from the grammar: every Scenic rule with each optional part absent / present
+    gforms, gstats = M.grammar_forms(os.path.join(REPO, "src", "scenic", "syntax", "scenic.gram"))
+    g_acc = g_rej = 0
+    g_roots_accepted = set()
+    for (origin, text), r in zip(gforms, ctx.pmap(work_seed, gforms, chunksize=32)):
+        if r["status"] == "accepted":
+            g_acc += 1
+            g_roots_accepted.add(origin.split("@")[0])
+        elif r["status"] == "rejected":
+            g_rej += 1
+        else:
+            add_violation(r["sig"], r["detail"], text, "grammar form " + origin, "frontend")
+    if g_acc == 0 or g_rej == 0 or len(g_roots_accepted) < gstats["roots"] // 2:
+        raise HarnessError(f"vacuous grammar-derived forms: {g_acc} accepted, {g_rej} rejected, {len(g_roots_accepted)}/{gstats['roots']} rules with an accepted form")
 
     # ---- single mutations
     insert = not quick
@@ -576,9 +592,11 @@ def run(ctx):
             ctx.violation(sig, f"{det}\ninput ({org}):\n{cand}", {"mode": mode, "text": cand})
 
     ctx.cov.update(
-        evaluations=len(seeds) + len(form_items) + tot["n"],
+        evaluations=len(seeds) + len(form_items) + len(gforms) + tot["n"],
         distinct_nontrivial=tot["rejected"],
-        rule="0 mutations: every seed and every expansion of every grammar form of docs/reference; 1 mutation: for the "
+        rule="0 mutations: every seed, every expansion of every grammar form of docs/reference, and every Scenic-specific rule of "
+        "scenic.gram expanded with each optional element absent/present, each repetition 0/1/2 times and each alternative (nested "
+        "Scenic rules to depth 2, at most 300 expansions per rule) in 8 statement/expression/specifier contexts; 1 mutation: for the "
         "selected seeds every token delete/duplicate/swap/replace-by-alphabet (+insert in thorough), every line re-indent/"
         "delete/duplicate/swap, every truncation offset; 2 mutations (thorough): all token-mutation pairs over the reduced "
         "alphabet on the smallest seeds.  Non-trivial = mutant rejected with a located ScenicSyntaxError (the oracle's "
@@ -594,6 +612,14 @@ def run(ctx):
         doc_form_expansions=len(form_items),
         doc_form_expansions_accepted=forms_ok,
         documented_precedence_examples=n_prec,
+        grammar_rules_expanded=gstats["roots"],
+        grammar_forms=gstats["bodies"],
+        grammar_form_texts=gstats["texts"],
+        grammar_form_texts_accepted=g_acc,
+        grammar_form_texts_rejected_located=g_rej,
+        grammar_rules_with_an_accepted_form=len(g_roots_accepted),
+        grammar_rules_without_accepted_form=sorted(set(gstats["bodies_per_root"]) - g_roots_accepted),
+        grammar_rules_truncated=gstats["truncated_rules"],
         mutation_seed_candidates=n_cands,
         mutation_seeds=len(chosen),
         mutation_seed_features_covered=len(covered),
